@@ -56,6 +56,73 @@ Definition ocall (et er : bool) (eps : Q) (c : call) (bases : list Q) (h : list 
 
 Definition calls := list (Q * Q).
 
+(** One step of a program on the current scale object.  In place: the object is changed and
+    stays the current one; not in place / copy / scale_tax_scales: the returned object
+    becomes the current one and the old one must be left as it was. *)
+Inductive step :=
+  | SMulThr (factor : Q) (decimals : option Z) (inplace : bool)
+  | SMulRates (factor : Q) (inplace : bool)
+  | SCopy
+  | SScaleTS (factor : Q)
+  | SAddBracket (t r : Q)
+  | SCombine (other : calls).          (* current.add_tax_scale(other) *)
+
+Definition apply_step (st : step) (s : scale) : res call :=
+  match st with
+  | SMulThr f d inplace => multiply_thresholds_call f d inplace false s
+  | SMulRates f inplace => multiply_rates_call f inplace false s
+  | SCopy => Ok (copy_call s)
+  | SScaleTS f => scale_tax_scales_call f s
+  | SAddBracket t r =>
+      let s' := add_bracket t r s in Ok {| self_after := s'; returned := s'; aliased := true |}
+  | SCombine o =>
+      let s' := add_tax_scale s (build o) in Ok {| self_after := s'; returned := s'; aliased := true |}
+  end.
+
+(* the bases at which the threshold-scaling law is observed after the step *)
+Definition step_bases (st : step) (bases : list Q) : list Q :=
+  match st with
+  | SMulThr f _ _ | SScaleTS f => map (Qmult f) bases
+  | _ => []
+  end.
+
+(* hints of stage k: fields 8k .. 8k+7 *)
+Definition probe_obs (eps : Q) (probe : calls) (bases : list Q) (h : list (list Q)) (k : nat) (s : scale)
+  : obs :=
+  let b := (8 * k)%nat in
+  OL [oscale_exact s;
+      oamounts (calc_marginal eps 1 None s bases) h b;
+      match inverse s with
+      | Err e => OErr e
+      | Ok inv => OL [oscale true false inv h (b + 1) (b + 1);
+                      oamounts (map (fun g => calc_eps eps inv (Qred (net_of eps s g))) bases) h (b + 2)]
+      end;
+      ores (fun a => oescale false a h (b + 6)) (to_average s);
+      ores (fun m => OL [oscale true false m h (b + 3) (b + 3);
+                         oamounts (calc_marginal eps 1 None m bases) h (b + 4)])
+           (average_then_marginal s);
+      (let r := add_tax_scale (build probe) s in
+       OL [oscale_exact r; oamounts (calc_marginal eps 1 None r bases) h (b + 5)])].
+
+(* same scale, every number in lowest terms (nothing depends on the representation of a
+   rational; without this numerators and denominators grow with every step) *)
+Definition qred_scale (s : scale) : scale := map (fun tr => (Qred (fst tr), Qred (snd tr))) s.
+
+Fixpoint run_prog (eps : Q) (probe : calls) (bases : list Q) (h : list (list Q)) (k : nat)
+         (steps : list step) (s : scale) : list obs :=
+  probe_obs eps probe bases h k s ::
+  match steps with
+  | [] => []
+  | st :: rest =>
+      match apply_step st s with
+      | Err e => [OErr e]
+      | Ok c =>
+          OL [oscale_exact (self_after c); OB (aliased c);
+              oamounts (calc_marginal eps 1 None (returned c) (step_bases st bases)) h (8 * k + 7)]
+          :: run_prog eps probe bases h (S k) rest (qred_scale (returned c))
+      end
+  end.
+
 Inductive case :=
   (* s1.add_tax_scale(s2): s1 after, s2 after, s1.calc(bases) *)
   | KCombine (eps : Q) (c1 c2 : calls) (bases : list Q) (h : list (list Q))
@@ -79,7 +146,12 @@ Inductive case :=
   (* s.to_average().to_marginal(): result, s after, result.calc(bases) *)
   | KAvgMarg (eps : Q) (c : calls) (bases : list Q) (h : list (list Q))
   (* s.copy() *)
-  | KCopy (eps : Q) (c : calls) (bases : list Q) (h : list (list Q)).
+  | KCopy (eps : Q) (c : calls) (bases : list Q) (h : list (list Q))
+  (* a sequence of transformations of ONE scale object; before the first and after every
+     step the current object is probed: calc, inverse (+ round trip), to_average,
+     to_average().to_marginal(), and probe.add_tax_scale(current) *)
+  | KProg (eps : Q) (c : calls) (probe : calls) (steps : list step) (bases : list Q)
+          (h : list (list Q)).
 
 Definition run (k : case) : obs :=
   match k with
@@ -100,7 +172,7 @@ Definition run (k : case) : obs :=
       match inverse s with
       | Err e => OErr e
       | Ok inv => OL [oscale true false inv h 0 0; oscale_exact s;
-                      oamounts (map (fun g => calc_eps eps inv (net_of eps s g)) gross) h 1]
+                      oamounts (map (fun g => calc_eps eps inv (Qred (net_of eps s g))) gross) h 1]
       end
   | KMulThr eps factor decimals inplace new_name exact c bases h =>
       ores (fun r => ocall exact true eps r bases h)
@@ -124,4 +196,5 @@ Definition run (k : case) : obs :=
       let r := copy_call (build c) in
       OL [oscale_exact (returned r); oscale_exact (self_after r); OB (aliased r);
           oamounts (calc_marginal eps 1 None (returned r) bases) h 0]
+  | KProg eps c probe steps bases h => OL (run_prog eps probe bases h 0 steps (build c))
   end.
